@@ -7,20 +7,14 @@ From TV Require Import Base.Prelude Base.Utf8 Model.Datetime Model.DatetimeStd M
   Extract.Show.
 Require Import String.
 
-(* the document toml::to_string writes, when it shows no date-time and no private key, is what
-   ValueSerializer builds *)
-Lemma toml_root_is_value t v out : has_type v t -> ser_toml_root t v = Ok out -> tunnel_free out = true ->
-  ser_value t v = Ok out.
+(* the document toml::to_string writes is what ValueSerializer builds (a root struct's name is passed on since the
+   repair of C06-root-datetime-printed-as-table, so this holds for every root) *)
+Lemma toml_root_is_value' t v out : ser_toml_root t v = Ok out -> ser_value t v = Ok out.
 Proof.
-  intros Hty H Hf. unfold has_type in Hty.
+  intros H.
   assert (Hedit : ser_edit_root t v = Ok out -> ser_value t v = Ok out).
   { intro E. apply edit_root_is_table in E as (es & _ & E). exact E. }
   destruct t; try (apply Hedit; destruct v; exact H).
-  - destruct v; try (apply Hedit; exact H). simpl in H. injection H as <-. simpl in Hf.
-    try rewrite bytes_eqb_refl in Hf. discriminate Hf.
-  - destruct v; try (apply Hedit; exact H). rewrite sv_struct.
-    rewrite ht_struct in Hty. apply andb_true_iff in Hty as [Hty _]. apply andb_true_iff in Hty as [Hpriv _].
-    apply negb_true_iff in Hpriv. rewrite (private_not_dt name Hpriv). exact H.
   - destruct v as [| | | | | | | | | | | | | |i p]; try (apply Hedit; exact H). simpl in H.
     match type of H with pick ?f ?d vs i = _ => destruct (pick_cases f d vs i) as [([vn var] & Hn & E)|[_ E]]; rewrite E in H end;
       [|discriminate H].
@@ -28,14 +22,17 @@ Proof.
     destruct p; try discriminate H. destruct (zipM ser_value ts vs0); discriminate H.
 Qed.
 
+(* the statement as it was before the repair (typing and tunnel-freeness are no longer needed) *)
+Lemma toml_root_is_value t v out : has_type v t -> ser_toml_root t v = Ok out -> tunnel_free out = true ->
+  ser_value t v = Ok out.
+Proof. intros _ H _. exact (toml_root_is_value' t v out H). Qed.
+
 Lemma toml_root_is_table t v out : ser_toml_root t v = Ok out -> exists es, out = VTab es.
 Proof.
   intro H.
   assert (Hedit : ser_edit_root t v = Ok out -> exists es, out = VTab es).
   { intro E. apply edit_root_is_table in E as (es & -> & _). eauto. }
   destruct t; try (apply Hedit; destruct v; exact H).
-  - destruct v; try (apply Hedit; exact H). simpl in H. injection H as <-. eauto.
-  - destruct v; try (apply Hedit; exact H). simpl in H. apply rmap_ok in H as (ps & _ & ->). eauto.
   - destruct v as [| | | | | | | | | | | | | |i p]; try (apply Hedit; exact H). simpl in H.
     match type of H with pick ?f ?d vs i = _ => destruct (pick_cases f d vs i) as [([vn var] & Hn & E)|[_ E]]; rewrite E in H end;
       [|discriminate H].
@@ -54,7 +51,7 @@ Theorem try_from_is_parsed_text t v out : has_type v t -> ser_toml_root t v = Ok
   exists y, to_toml_value out = Ok y /\ to_toml_table out = Ok y /\ tv_ser t v = Ok y
             /\ (forall y', tv_ser_table t v = Ok y' -> y' = y).
 Proof.
-  intros Hty H Hf. pose proof (toml_root_is_value t v out Hty H Hf) as Hv.
+  intros Hty H Hf. pose proof (toml_root_is_value' t v out H) as Hv.
   destruct (try_from_twin t v out Hty Hv Hf) as (y & C & T).
   exists y. split; [exact C|]. split; [|split; [exact T|]].
   - rewrite plain_root_same; [exact C|].
@@ -88,44 +85,30 @@ Proof.
   - intros r Hr. rewrite (decode_edit r t out Hr). apply (toml_root_roundtrip t v out Hty H).
   - intros Hf r Hr.
     destruct (try_from_is_parsed_text t v out Hty H Hf) as (y & C1 & C2 & T & _).
-    pose proof (toml_root_is_value t v out Hty H Hf) as Hv.
+    pose proof (toml_root_is_value' t v out H) as Hv.
     pose proof (tv_roundtrip_supported t v y Hty (ser_ok_supported t v out Hty Hv) T) as R.
     destruct Hr as [-> | ->]; simpl; [rewrite C1|rewrite C2]; exact R.
 Qed.
 
 (* ---- ... and on the text of a single value (toml::ser::ValueSerializer) ---- *)
-Lemma value_text_cases t v x : has_type v t -> ser_value_text t v = Ok x ->
-  (exists k d, t = TDatetime k /\ v = SDt d /\ x = VTab [(DT_FIELD, VStr (display_datetime d))])
-  \/ ser_value t v = Ok x.
+Lemma value_text_is_value t v x : ser_value_text t v = Ok x -> ser_value t v = Ok x.
 Proof.
-  intros Hty H. unfold has_type in Hty.
-  destruct t; try (right; destruct v; exact H).
-  - destruct v; try (right; exact H). simpl in H. injection H as <-. left. eauto.
-  - destruct v; try (right; exact H). right. rewrite sv_struct.
-    rewrite ht_struct in Hty. apply andb_true_iff in Hty as [Hty _]. apply andb_true_iff in Hty as [Hpriv _].
-    apply negb_true_iff in Hpriv. rewrite (private_not_dt name Hpriv). exact H.
-  - destruct v as [| | | | | | | | | | | | | |i p]; try (right; exact H). simpl in H.
-    match type of H with pick ?f ?d vs i = _ => destruct (pick_cases f d vs i) as [([vn var] & Hn & E)|[_ E]]; rewrite E in H end;
-      [|discriminate H].
-    simpl in H. destruct var; try discriminate H; right; exact H.
+  intros H. destruct t; try (destruct v; exact H).
+  destruct v as [| | | | | | | | | | | | | |i p]; try exact H. simpl in H.
+  match type of H with pick ?f ?d vs i = _ => destruct (pick_cases f d vs i) as [([vn var] & Hn & E)|[_ E]]; rewrite E in H end;
+    [|discriminate H].
+  simpl in H. destruct var; try discriminate H; exact H.
 Qed.
 
 Theorem on_serialized_value t v x : has_type v t -> ser_value_text t v = Ok x ->
   (forall r, r = R_tvd \/ r = R_evd -> exists v', decode r t x = Ok v' /\ sval_eq v v')
   /\ (tunnel_free x = true -> exists v', decode R_tvdval t x = Ok v' /\ sval_eq v v').
 Proof.
-  intros Hty H. destruct (value_text_cases t v x Hty H) as [(k & d & -> & -> & ->)|Hv].
-  - split.
-    + intros r Hr. assert (decode r (TDatetime k) (VTab [(DT_FIELD, VStr (display_datetime d))])
-                           = de_value (TDatetime k) (VTab [(DT_FIELD, VStr (display_datetime d))])) as -> by (destruct Hr as [-> | ->]; reflexivity).
-      unfold has_type in Hty. simpl in Hty. apply andb_true_iff in Hty as [Hr' Hk].
-      rewrite (de_root_datetime k d Hr' Hk). eexists; split; [reflexivity|constructor].
-    + intro Hf. simpl in Hf. try rewrite bytes_eqb_refl in Hf. discriminate Hf.
-  - split.
-    + intros r Hr. assert (decode r t x = de_value t x) as -> by (destruct Hr as [-> | ->]; reflexivity).
-      apply (roundtrip_value t v x Hty Hv).
-    + intro Hf. destruct (try_from_twin t v x Hty Hv Hf) as (y & C & T). simpl. rewrite C. simpl.
-      apply (tv_roundtrip_supported t v y Hty (ser_ok_supported t v x Hty Hv) T).
+  intros Hty H. pose proof (value_text_is_value t v x H) as Hv. split.
+  - intros r Hr. assert (decode r t x = de_value t x) as -> by (destruct Hr as [-> | ->]; reflexivity).
+    apply (roundtrip_value t v x Hty Hv).
+  - intro Hf. destruct (try_from_twin t v x Hty Hv Hf) as (y & C & T). simpl. rewrite C. simpl.
+    apply (tv_roundtrip_supported t v y Hty (ser_ok_supported t v x Hty Hv) T).
 Qed.
 
 (* the former witness of C13-valueser-root-tuple-variant (repaired): enum E { T(i32, i32) }, E::T(1, 2) is
@@ -141,3 +124,25 @@ Theorem on_serialized_value_tuple_variant :
   /\ decode R_evd tvr_ty (VTab [(str "T", VArr [VInt 1; VInt 2])]) = Ok tvr_val
   /\ decode R_tvdval tvr_ty (VTab [(str "T", VArr [VInt 1; VInt 2])]) = Ok tvr_val.
 Proof. repeat split; vm_compute; reflexivity. Qed.
+
+(* ---- the converse (since the repair of C07-tryfrom-nested-none-dropped): Value::try_from accepts nothing the
+   value serializer of the text routes refuses, and Table::try_from nothing Value::try_from refuses — so try_from and
+   serialize-then-parse give the same verdict, and on success the same tree.  doc_keys: map keys of type char /
+   Option<_>, which SerializeMap::serialize_key accepts and a document cannot have. ---- *)
+Theorem try_from_same_verdict t v : has_type v t -> doc_keys t = true ->
+  ((exists y, tv_ser t v = Ok y) <-> (exists x, ser_value t v = Ok x)).
+Proof. exact (tv_same_verdict t v). Qed.
+
+Theorem try_from_accepts_only_serializable t v y : has_type v t -> doc_keys t = true -> tv_ser t v = Ok y ->
+  exists x, ser_value t v = Ok x /\ (tunnel_free x = true -> to_toml_value x = Ok y).
+Proof.
+  intros Hty Hd H. destruct (proj1 (tv_same_verdict t v Hty Hd) (ex_intro _ y H)) as (x & Hx).
+  exists x. split; [exact Hx|]. intro Hf.
+  destruct (try_from_twin t v x Hty Hx Hf) as (y' & C & T). congruence.
+Qed.
+
+Theorem table_try_from_accepts_only_serializable t v y : has_type v t -> doc_keys t = true -> tv_ser_table t v = Ok y ->
+  exists x, ser_value t v = Ok x.
+Proof.
+  intros Hty Hd H. apply (ser_ok_iff_supported t v Hty). apply (table_tryfrom_supported t v y Hty Hd H).
+Qed.
